@@ -88,8 +88,11 @@ def main() -> int:
         if r.random() < 0.2:
             # a component object and a nested inline enum / object deriving the same class name (either declaration order)
             a = {"type": "object", "properties": {"code": {"type": "integer"}}}
-            b = {"type": "object", "properties": {"status": {"type": "string", "enum": ["open", "closed"]}, "detail": {"type": "object", "properties": {"why": {"type": "string"}}}}}
-            items = [("ZqOrderStatus", a), ("ZqOrderDetail", docs.clone(a)), ("ZqOrder", b)]
+            # (one collision per owner: the first failing property of a model ends its processing)
+            b = {"type": "object", "properties": {"status": {"type": "string", "enum": ["open", "closed"]}, "n": {"type": "integer"}}}
+            b2 = {"type": "object", "properties": {"detail": {"type": "object", "properties": {"why": {"type": "string"}}}, "n": {"type": "integer"}}}
+            b3 = {"type": "object", "properties": {"kind": {"type": "integer", "enum": [1, 2]}}}
+            items = [("ZqOrderStatus", a), ("ZqPurchaseDetail", docs.clone(a)), ("ZqOrder", b), ("ZqPurchase", b2), ("ZqInvoiceKind", {"type": "string", "enum": ["x", "y"]}), ("ZqInvoice", b3)]
             r.shuffle(items)
             for k_, v_ in items:
                 d["components"]["schemas"][k_] = v_
